@@ -868,6 +868,7 @@ func (g *Gen) run(pass1 map[int]map[string]bool) {
 	}
 	entryState := copyState(g.cur)
 	g.entry[-1] = entryState
+	g.entryAts()
 
 	for _, b := range g.rpo {
 		if b.Index != 0 {
